@@ -5,6 +5,7 @@ Mutation events
                               a Wait whose duration comes from the session's DurationRegistry)
   ('sub', rep, body)          build a block from the body and add it
   ('rel', rt, i)              add Rx90(2) with relation rt to entry i of the current circuit
+  ('subreg', body)            add a block whose count comes from the session's RepetitionRegistry; ('setrep', n) sets it
   ('grow', i)                 add Reset(0) into the block that is entry i (through the block's own add)
   ('apply',) ('flatten',)     c = c.apply_modifiers() / c = c.flatten()
   ('nest',)                   new circuit; add the current one into it
@@ -13,7 +14,8 @@ Mutation events
 Observation events
   ('obs', kind)  kind in ops | times | dur | acq | stim | plot | copy | plotnc
 """
-from qce_circuit import DeclarativeCircuit, RelationLink, DurationRegistry, RegistryDurationStrategy, plot_circuit
+from qce_circuit import (DeclarativeCircuit, RelationLink, DurationRegistry, RegistryDurationStrategy, plot_circuit,
+                         RepetitionRegistry, RegistryRepetitionStrategy)
 from qce_circuit.addon_stim import to_stim
 from qce_circuit.structure import circuit_operations as co
 from mc import world
@@ -29,6 +31,8 @@ class Session:
         self.c = DeclarativeCircuit()
         self.ent = []
         self.reg = DurationRegistry()
+        self.rep_reg = RepetitionRegistry()
+        self.rep_reg.set_registry_at('n', 2)
         self.ctx = None
 
     # ------------------------------------------------------------ mutations
@@ -45,6 +49,14 @@ class Session:
         elif k == 'sub':
             sb = build(ev[2], rep=ev[1])
             self.ent.append(c.add(sb.circ))
+        elif k == 'subreg':
+            # a block whose repetition count is provided by the session's RepetitionRegistry (initially 2)
+            sb = build(ev[1])
+            blk = DeclarativeCircuit(repetition_strategy=RegistryRepetitionStrategy(registry=self.rep_reg, registry_key='n'))
+            blk.add(sb.circ)
+            self.ent.append(c.add(blk))
+        elif k == 'setrep':
+            self.rep_reg.set_registry_at('n', int(ev[1]))
         elif k == 'rel':
             self.ent.append(c.add(co.Rx90(2, relation=RelationLink(self.ent[ev[2]], RT[ev[1]]))))
         elif k == 'grow':
